@@ -50,6 +50,40 @@ SL = slice(None)
 # ---------------------------------------------------------------------------
 
 
+def pack(o):
+    """descriptor -> descriptor the shared codec round-trips: it stores a 0-d ndarray with shape (1,), so 0-d arrays
+    travel as a marker dict"""
+    if isinstance(o, np.ndarray) and o.ndim == 0:
+        return {'__zerod__': o.item(), 'dtype': str(o.dtype)}
+    if isinstance(o, dict):
+        return {k: pack(v) for k, v in o.items()}
+    if isinstance(o, list):
+        return [pack(v) for v in o]
+    if isinstance(o, tuple):
+        return tuple(pack(v) for v in o)
+    return o
+
+
+def unpack(o):
+    if isinstance(o, dict):
+        if '__zerod__' in o:
+            return np.array(o['__zerod__'], dtype=np.dtype(o['dtype']))
+        return {k: unpack(v) for k, v in o.items()}
+    if isinstance(o, list):
+        return [unpack(v) for v in o]
+    if isinstance(o, tuple):
+        return tuple(unpack(v) for v in o)
+    return o
+
+
+def packed_bucket(name, strat, prop, n, nt, cl, weight=1.0, shards=None):
+    """Bucket whose descriptors are packed (see pack); prop / nontrivial / classes see the unpacked case"""
+    return Bucket(name, (lambda: strat().map(pack)), (lambda case, stats: prop(unpack(case), stats)), n,
+                  nontrivial=(lambda case: nt(unpack(case))), classes=(lambda case: cl(unpack(case))),
+                  shards=shards, weight=weight)
+
+
+
 def _astuple(idx):
     return idx if isinstance(idx, tuple) else (idx,)
 
@@ -1089,8 +1123,8 @@ def buckets(tier):
     B = []
 
     def add(name, strat, prop, q, t, nt, cl, weight=1.0, shards=1):
-        B.append(Bucket(name, strat, prop, {'quick': q, 'thorough': t}, nontrivial=nt, classes=cl,
-                        shards={'quick': 1, 'thorough': shards}, weight=weight))
+        B.append(packed_bucket(name, strat, prop, {'quick': q, 'thorough': t}, nt, cl, weight=weight,
+                               shards={'quick': 1, 'thorough': shards}))
 
     add('getitem:tuple', lambda: getitem_cases('tuple'), prop_getitem, 1000, 4000, nt_getitem, cls_getitem, 2.0, 4)
     add('getitem:bare', lambda: getitem_cases('bare'), prop_getitem, 600, 3000, nt_getitem, cls_getitem, 2.0, 2)
